@@ -9,12 +9,14 @@ Import ListNotations.
 Local Open Scope string_scope.
 
 Theorem Pb_holds_on_model : forall c args p fl vals,
-  parse_common c args = POk fl vals -> wf_pkgb p = true -> known_class c fl p = false ->
+  parse_common c args = POk fl vals -> flag_val "to" vals "" = "" ->
+  wf_pkgb p = true -> known_class c fl p = false ->
   Pb c args p (model_obs c args p) = true.
 Proof.
-  intros c args p fl vals Hp Hwf Hk.
+  intros c args p fl vals Hp Hto Hwf Hk.
   pose proof (run_meets_spec id_oracle c fl p id_oracle_perm Hwf (parse_common_flags_ok c args fl vals Hp) Hk) as M.
-  unfold Pb, model_obs, shoot_cli. rewrite Hp. destruct (run id_oracle c fl p) as [files listed|d]; simpl.
+  unfold Pb, model_obs. rewrite (shoot_cli_run id_oracle c args p fl vals Hp Hto). rewrite Hp.
+  destruct (run id_oracle c fl p) as [files listed|d]; simpl.
   - exact M.
   - exact M.
 Qed.
@@ -30,11 +32,12 @@ Proof.
 Qed.
 
 Theorem verdict_zero_on_model : forall c args p fl vals,
-  parse_common c args = POk fl vals -> wf_pkgb p = true -> known_class c fl p = false ->
+  parse_common c args = POk fl vals -> flag_val "to" vals "" = "" ->
+  wf_pkgb p = true -> known_class c fl p = false ->
   verdict {| c_cmd := c; c_args := args; c_pkg := p; c_obs := model_obs c args p |} = 0%N.
 Proof.
-  intros c args p fl vals Hp Hwf Hk. unfold verdict. simpl.
-  rewrite (Pb_holds_on_model c args p fl vals Hp Hwf Hk), obs_eqb_refl. reflexivity.
+  intros c args p fl vals Hp Hto Hwf Hk. unfold verdict. destruct (not_modelled _); [reflexivity|]. simpl.
+  rewrite (Pb_holds_on_model c args p fl vals Hp Hto Hwf Hk), obs_eqb_refl. reflexivity.
 Qed.
 
 (* ----------------------------------------------- witnesses of the findings *)
@@ -46,17 +49,17 @@ Definition it (n : string) : tspec :=
 
 Definition w_star : pkg :=
   {| p_files := [ {| f_name := "a.go"; f_decls := [DType [st "Alpha"]] |};
-                  {| f_name := "b.go"; f_decls := [DType [st "Order"]] |} ]; p_dest := [] |}.
+                  {| f_name := "b.go"; f_decls := [DType [st "Order"]] |} ]; p_dest := []; p_others := [] |}.
 Definition w_enum : pkg :=
   {| p_files := [ {| f_name := "a.go"; f_decls := [DType [it "Color"]; DConst "Color" ["ColorRed"; "ColorBlue"]] |} ];
-     p_dest := [] |}.
+     p_dest := []; p_others := [] |}.
 Definition w_starsep : pkg :=
   {| p_files := [ {| f_name := "a.go"; f_decls := [DComment "//go:generate shoot new -type=* -sep"; DType [st "Alpha"]] |};
-                  {| f_name := "b.go"; f_decls := [DType [st "Order"]] |} ]; p_dest := [] |}.
+                  {| f_name := "b.go"; f_decls := [DType [st "Order"]] |} ]; p_dest := []; p_others := [] |}.
 Definition w_local : pkg :=
-  {| p_files := [ {| f_name := "a.go"; f_decls := [DType [st "Alpha"]; DFunc [st "Loc"]] |} ]; p_dest := [] |}.
+  {| p_files := [ {| f_name := "a.go"; f_decls := [DType [st "Alpha"]; DFunc [st "Loc"]] |} ]; p_dest := []; p_others := [] |}.
 Definition w_collide : pkg :=
-  {| p_files := [ {| f_name := "a.go"; f_decls := [DType [st "Order"]; DType [st "ORDER"]] |} ]; p_dest := [] |}.
+  {| p_files := [ {| f_name := "a.go"; f_decls := [DType [st "Order"]; DType [st "ORDER"]] |} ]; p_dest := []; p_others := [] |}.
 
 Definition refuted (c : subcmd) (args : list string) (p : pkg) (k : subcmd -> cflags -> pkg -> bool) : Prop :=
   exists fl vals, parse_common c args = POk fl vals /\ wf_pkgb p = true /\ k c fl p = true /\
